@@ -558,27 +558,32 @@ func runNative(files []*harnessFile, pkgDir, module, tier string, engineReplaces
 		// named by verif:sched when a case carries a recorded schedule
 		var src map[string][]byte
 		var xImports, xAssigns []string
-		needSched := false
+		needSched, needClock := false, false
 		for _, c := range cases {
-			if _, ok := c.Table["sched:trace"]; ok {
-				needSched = true
+			for k := range c.Table {
+				if k == "sched:trace" {
+					needSched = true
+				}
+				if strings.HasPrefix(k, "time.Now#") {
+					needClock = true
+				}
 			}
 		}
-		if needSched {
+		if needSched || needClock {
 			pkgs := []string{repoModule + "/" + pkgDir}
 			for _, f := range files {
 				if f.PkgDir != pkgDir || f.Module != module {
 					continue
 				}
 				for _, d := range f.Dirs {
-					if strings.HasPrefix(d, "sched ") {
+					if strings.HasPrefix(d, "sched ") { // further packages whose sync operations / clock reads are replayed
 						pkgs = append(pkgs, strings.TrimSpace(strings.TrimPrefix(d, "sched ")))
 					}
 				}
 			}
 			var extra map[string]string
 			var ierr error
-			src, extra, xImports, xAssigns, ierr = instrumentSched(tmp, filepath.Join(repoRoot, module), repoModule+"/"+pkgDir, dedupe(pkgs), replace)
+			src, extra, xImports, xAssigns, ierr = instrumentSched(tmp, filepath.Join(repoRoot, module), repoModule+"/"+pkgDir, dedupe(pkgs), replace, needSched, needClock)
 			if ierr != nil {
 				fmt.Fprintf(os.Stderr, "schedule instrumentation failed (replay falls back to stress repetition): %v\n", ierr)
 				src, xImports, xAssigns = nil, nil, nil
